@@ -1,6 +1,7 @@
 """C09 — reader robustness: arbitrary bytes and format strings."""
 import os
 import random
+import struct
 import hashlib
 import subprocess
 import sys
@@ -108,8 +109,38 @@ def hostile_tags(rng):
             G.source_payload(1, 128, b'c', b'f', b'x', 1, b'{} {}', tag), G.event_payload(1, rng.randrange(1 << 64), args)]
 
 
+def buffer_boundary_log(rng):
+    """valid logs whose rendered line crosses the 1024-byte print buffer of OstreamBuffer at every alignment: a string argument
+    of a length around a multiple of the buffer size, preceded and followed by literal characters (incl. bytes >= 0x80),
+    numbers and further strings, so that every kind of producer (put, write, the snprintf-based number printers) meets a
+    buffer that is exactly full, one short of full, or just flushed"""
+    base = rng.choice([1024, 1024, 2048, 3072])
+    n = max(0, base + rng.randrange(-40, 41)) if rng.random() < 0.7 else rng.choice([base - 1, base, base + 1, base - 16, base - 32, base - 64])
+    pre = bytes(rng.choice(b'ab \xff\x80-') for _ in range(rng.choice([0, 0, 1, 5, 16, 31])))
+    suf = bytes(rng.choice(b'cd \xff\xfe<-!') for _ in range(rng.choice([0, 1, 2, 9, 16, 40])))
+    kind = rng.randrange(4)
+    if kind == 0:
+        tags, fmt = b'[c', pre + b'{}' + suf
+        args = G.u32(n) + bytes(rng.choice(b'xyz') for _ in range(n))
+    elif kind == 1:
+        tags, fmt = b'[cl', pre + b'{}{}' + suf
+        args = G.u32(n) + bytes(rng.choice(b'xyz') for _ in range(n)) + (rng.choice([0, 1, -1, 1 << 62, -(1 << 63), 123456789]) & ((1 << 64) - 1)).to_bytes(8, 'little')
+    elif kind == 2:
+        tags, fmt = b'[cd[c', pre + b'{}' + suf + b'{}|{}'
+        args = G.u32(n) + bytes(rng.choice(b'xyz') for _ in range(n)) + struct.pack('<d', rng.choice([0.1, 1e300, -2.5e-300, 3.0])) + G.u32(7) + b'tailstr'
+    else:
+        tags, fmt = b'([c[i)', pre + b'{}' + suf
+        m = rng.choice([0, 1, 3, 40])
+        args = G.u32(n) + bytes(rng.choice(b'xyz') for _ in range(n)) + G.u32(m) + b''.join(G.u32(rng.randrange(1 << 32)) for _ in range(m))
+    return [G.cs_payload(5, 10 ** 9, rng.randrange(1 << 60), 0, b'UTC'), G.wp_payload(7, b'writer', 0),
+            G.source_payload(1, 128, b'category', b'function', b'dir/file.cpp', 42, fmt, tags),
+            G.event_payload(1, rng.randrange(1 << 40), args)]
+
+
 def gen_case(rng):
-    k = rng.randrange(10)
+    k = rng.randrange(11)
+    if k == 10:
+        return rng.choice(['0', '1']), rng.choice([b'%m\n', b'%m\n', b'%S %C [%d] %n %m (%G:%L)\n', b'%m\xff%m\n', b'%n%m']), rng.choice(DATE_FORMATS), G.frames(buffer_boundary_log(rng))
     if k < 3:
         file = G.frames(typed_log(rng))
     elif k < 7:
@@ -265,13 +296,12 @@ def check_c09(ctx):
     prop_fail, nontrivial = set(), set()
     st = ctx.streams['bread']
     errkinds = {}
-    if len(impl) < len(lines):
-        # the harness died (sanitizer report / assertion / stack overflow): the first unanswered input is the culprit
-        i = len(impl)
+    for i, errtxt in getattr(ctx, 'died', {}).get('bread', [])[:3]:
+        # the harness died (sanitizer report / assertion / stack overflow) on this input
         prop_fail.add(i)
         ctx.violation('crash-' + hashlib.sha256(lines[i].encode()).hexdigest()[:10],
-                      'C09: the reader crashed (sanitizer report, assertion or stack overflow) on an input: ' + st.get('impl_stderr_tail', '')[-400:],
-                      {'kind': 'input', 'input_line': lines[i], 'stderr': st.get('impl_stderr_tail', '')})
+                      'C09: the reader crashed (sanitizer report, assertion or stack overflow) on an input: ' + ' '.join(errtxt[-400:].split()),
+                      {'kind': 'input', 'input_line': lines[i][:20000], 'stderr': errtxt})
     for i in range(min(len(impl), len(lines))):
         kv = parse_kv(impl[i])
         e = kv.get('err', '-')
